@@ -681,6 +681,11 @@ pub fn corpus(ty: Ty) -> Vec<Vec<Op>> {
         // every count whose result still fits inline, from short sources (inline, and a borrowed 1..3-byte prefix of a longer text)
         vec![Op::FromSlice(b(1)), Op::Repeat(0, 6), Op::Repeat(0, 7), Op::Repeat(0, 10), Op::Repeat(0, 15), Op::Repeat(0, 23), Op::Repeat(0, 24), Op::FromSlice(b(2)), Op::Repeat(7, 6), Op::Repeat(7, 11), Op::FromSlice(b(3)), Op::Repeat(10, 7), Op::Repeat(10, 8)],
         vec![Op::Borrowed(b(40)), Op::Slice(0, Included(0), Excluded(1)), Op::Repeat(1, 6), Op::Repeat(1, 13), Op::Slice(0, Included(3), Excluded(5)), Op::Repeat(4, 7), Op::Repeat(4, 11), Op::Slice(0, Included(1), Excluded(4)), Op::Repeat(7, 6)],
+        // the sole owner of a view that starts INSIDE its buffer (the source is gone): every operation that may reuse the buffer
+        vec![Op::FromSlice(b(60)), Op::Slice(0, Included(10), Unbounded), Op::Drop(0), Op::Mutate(1, vec![VOp::Push(b'x')], false), Op::Pop(1)],
+        vec![Op::FromVec(b(60), 40), Op::Slice(0, Included(10), Excluded(50)), Op::Drop(0), Op::ShrinkTo(1, 45), Op::PushSlice(1, b(3)), Op::ShrinkToFit(1), Op::IntoVec(1)],
+        vec![Op::FromVec(b(60), 40), Op::Slice(0, Included(30), Unbounded), Op::Drop(0), Op::PushSlice(1, b(35)), Op::PushSlice(1, b(40)), Op::Truncate(1, 31), Op::VecFrom(1)],
+        vec![Op::FromSlice(b(64)), Op::Slice(0, Included(40), Unbounded), Op::Drop(0), Op::Mutate(1, vec![VOp::Extend(b(5)), VOp::ShrinkFit], false), Op::Clone(1), Op::Mutate(1, vec![VOp::Clear], false)],
         // products that wrap around usize to a small number (must panic like std, in release too)
         vec![Op::FromSlice(b(2)), Op::Repeat(0, 1 << 63), Op::Borrowed(b(32)), Op::Repeat(1, 1 << 59), Op::Repeat(0, usize::MAX), Op::FromSlice(b(32)), Op::Repeat(2, 1 << 59), Op::Repeat(2, (1 << 59) + 1)],
         // a short heap value (with_capacity lineage) that is shared, then edited through the copying accessors
